@@ -35,8 +35,12 @@ LocalTable == [
   boson1  |-> [Id |-> <<P(0), P(1)>>, JW |-> <<P(0), P(1)>>,
                B |-> <<Zr, P(0)>>, Bd |-> <<P(1), Zr>>, N |-> <<Zr, P(1)>>, NN |-> <<Zr, P(1)>>],
   boson2  |-> [Id |-> <<P(0), P(1), P(2)>>, JW |-> <<P(0), P(1), P(2)>>,
-               N |-> <<Zr, P(1), <<2, <<2, 0>>>>>>, NN |-> <<Zr, P(1), <<2, <<4, 0>>>>>>] ]
-Dim(type) == IF type = "boson2" THEN 3 ELSE 2
+               N |-> <<Zr, P(1), <<2, <<2, 0>>>>>>, NN |-> <<Zr, P(1), <<2, <<4, 0>>>>>>],
+  \* BosonSite(Nmax=4): only the diagonal operators have integer entries
+  boson4  |-> [Id |-> <<P(0), P(1), P(2), P(3), P(4)>>, JW |-> <<P(0), P(1), P(2), P(3), P(4)>>,
+               N |-> <<Zr, P(1), <<2, <<2, 0>>>>, <<3, <<3, 0>>>>, <<4, <<4, 0>>>>>>,
+               NN |-> <<Zr, P(1), <<2, <<4, 0>>>>, <<3, <<9, 0>>>>, <<4, <<16, 0>>>>>>] ]
+Dim(type) == CASE type = "boson2" -> 3 [] type = "boson4" -> 5 [] OTHER -> 2
 NeedsJW(type, name) == type = "fermion" /\ name \in {"C", "Cd"}
 \* diagonal of the string operator 'JW' of a site
 JWDiag(type) == IF type = "fermion" THEN <<1, -1>> ELSE [s \in 1..Dim(type) |-> 1]
@@ -53,6 +57,8 @@ RECURSIVE IProdFn(_, _)
 IProdFn(f, n) == IF n = 0 THEN 1 ELSE f[n] * IProdFn(f, n - 1)
 RECURSIVE Pow(_, _)
 Pow(b, n) == IF n = 0 THEN 1 ELSE b * Pow(b, n - 1)
+RECURSIVE GPow(_, _)
+GPow(z, n) == IF n = 0 THEN GOne ELSE GMul(z, GPow(z, n - 1))
 
 \* TLC evaluates function constructors lazily and re-evaluates the body on every application;
 \* TLCEval forces one level.  EvalSeq / EvalMat make values concrete once (semantically the identity).
@@ -144,9 +150,13 @@ ShapeY(c, d) == IF c.bcy = "open" THEN c.Ly - BoxExt(d, 2) ELSE c.Ly
 WrapX(c, x) == IF OpenX(c) THEN x ELSE x % c.Lx
 WrapY(c, y) == IF c.bcy = "open" THEN y ELSE y % c.Ly
 
+\* shifted periodic boundary in y (c.shift, lattice bc = ['periodic', shift]): a position that leaves the lattice
+\* w times across the y boundary re-enters displaced by -w * shift along x
 CouplingSites(c, d, bx, by) ==
-    [k \in 1..Len(d.ops) |-> Idx(c, WrapX(c, bx + d.ops[k][2][1] - BoxMin(d, 1)),
-                                    WrapY(c, by + d.ops[k][2][2] - BoxMin(d, 2)), d.ops[k][3])]
+    [k \in 1..Len(d.ops) |->
+        LET rawy == by + d.ops[k][2][2] - BoxMin(d, 2)
+            wy == IF c.bcy = "open" THEN 0 ELSE rawy \div c.Ly
+        IN Idx(c, WrapX(c, bx + d.ops[k][2][1] - BoxMin(d, 1) - wy * c.shift), WrapY(c, rawy), d.ops[k][3])]
 
 RECURSIVE RangeSeq(_, _)
 RangeSeq(a, b) == IF a > b THEN <<>> ELSE <<a>> \o RangeSeq(a + 1, b)
@@ -171,7 +181,8 @@ CouplingTerms(c, d) ==
 
 \* ---- add_exponentially_decaying_coupling(strength, lambda, op_i, op_j, subsites):
 \*      strength * sum_{a < b} lambda^(b - a) A_{S[a]} B_{S[b]},  S = subsites repeated in every unit cell
-\* lambda = 1/lamInv and strength = s0 * lamInv^dmax with dmax >= the largest distance, so everything is integer
+\* lambda = lam / lamInv (lam a Gaussian integer: complex decay rates) and strength = s0 * lamInv^dmax with
+\* dmax >= the largest distance, so everything is a Gaussian integer
 SubsAll(c, d) == IF d.subs = <<>> THEN [i \in 1..NCell(c) |-> i - 1] ELSE d.subs
 SubsWindow(c, d) ==
     LET S == SubsAll(c, d)
@@ -185,8 +196,19 @@ ExpDecayTerms(c, d) ==
         PairB(n) == CHOOSE b \in 2..m : ((b - 1) * (b - 2)) \div 2 < n /\ n <= (b * (b - 1)) \div 2
         PairA(n) == n - ((PairB(n) - 1) * (PairB(n) - 2)) \div 2
     IN [n \in 1..np |->
-          [c |-> GScale(Pow(d.lamInv, d.dmax - (PairB(n) - PairA(n))), d.s0), raw |-> FALSE,
+          [c |-> GMul(GScale(Pow(d.lamInv, d.dmax - (PairB(n) - PairA(n))), d.s0), GPow(d.lam, PairB(n) - PairA(n))), raw |-> FALSE,
            ops |-> <<<<d.opi, SW[PairA(n)]>>, <<d.opj, SW[PairB(n)]>>>>]]
+
+\* ---- add_exponentially_decaying_centered_terms(strength, lambda, op_i, op_j, i): finite systems,
+\*      strength * sum_{j # i} lambda^|a(i) - a(j)| A_i B_j   (a = position within the subsites; bosonic operators)
+ExpCenterTerms(c, d) ==
+    LET S == SubsAll(c, d)
+        ai == CHOOSE a \in 1..Len(S) : S[a] = d.i0
+        others == SelectSeq([a \in 1..Len(S) |-> a], LAMBDA a : a # ai)
+    IN [n \in 1..Len(others) |->
+          LET dist == IAbs(others[n] - ai)
+          IN [c |-> GMul(GScale(Pow(d.lamInv, d.dmax - dist), d.s0), GPow(d.lam, dist)), raw |-> FALSE,
+              ops |-> <<<<d.opi, d.i0>>, <<d.opj, S[others[n]]>>>>]]
 
 \* ---- add_local_term(strength, [(op, (x, y, u)), ...]): one term (and its translates in an infinite system)
 LocalTermTerms(c, d) ==
@@ -202,6 +224,7 @@ LocalTermTerms(c, d) ==
 BaseTerms(c, d) == EvalTerms(CASE d.kind = "onsite" -> OnsiteTerms(c, d)
                                   [] d.kind \in {"coupling", "multi"} -> CouplingTerms(c, d)
                                   [] d.kind = "expdecay" -> ExpDecayTerms(c, d)
+                                  [] d.kind = "expcenter" -> ExpCenterTerms(c, d)
                                   [] d.kind = "local" -> LocalTermTerms(c, d))
 
 \* term-list view: conjugates written out
